@@ -346,6 +346,14 @@ pub fn run(rep: &mut Report, tier: &str, seed: u64) {
         let program = gen_program(&mut r, &pool, &opts);
         let damaged = ci % 3 == 2;
         let text = if ci % 6 == 0 { program.text.clone() } else { relayout(&mut r, &program.text) };
+        // one text in seven ENDS in an attribute shorthand (the other items may come in any order), followed by nothing, by a
+        // newline, or by layout only
+        let text = if ci % 7 == 3 {
+            rep.count("text-ends-in-a-shorthand");
+            format!("{}attribute zlast = zp => zk = zp, zj = 1{}", text, r.pick(&["", "\n", "  ", " ; the end", "\n\n; done\n"]))
+        } else {
+            text
+        };
         let text = if damaged { let mut t = damage(&mut r, &text); if r.chance(1, 3) { t = damage(&mut r, &t); } t } else { text };
         let real = real_parse(&text);
         let model = model_parse(&mut drv, &text);
@@ -392,13 +400,14 @@ pub fn run(rep: &mut Report, tier: &str, seed: u64) {
                         json!({"text": text, "implementation": want.pretty(), "model": model.pretty()}));
                 }
                 // layout independence: the same program in the generator's house layout yields the same AST modulo locations
-                if text != program.text {
-                    match real_parse(&program.text) {
+                let house_text = if ci % 7 == 3 { format!("{}attribute zlast = zp => zk = zp, zj = 1\n", program.text) } else { program.text.clone() };
+                if text != house_text {
+                    match real_parse(&house_text) {
                         Ok(Ok(house)) => {
                             rep.count("layout-pairs");
                             let (a, b) = (crate::astx::file_no_loc(&house), crate::astx::file_no_loc(&file));
                             if a != b {
-                                rep.fail("direct", "C07 two layouts of one program parse to different ASTs", true, json!({"text": text, "house": program.text, "relayout_ast": b.pretty(), "house_ast": a.pretty()}));
+                                rep.fail("direct", "C07 two layouts of one program parse to different ASTs", true, json!({"text": text, "house": house_text, "relayout_ast": b.pretty(), "house_ast": a.pretty()}));
                             }
                         }
                         _ => rep.fail("direct", "C07 the house layout of a generated program is rejected", true, json!({"text": program.text})),
